@@ -7,12 +7,12 @@
 package c05
 
 import (
-	"runtime/debug"
 	"bytes"
 	"context"
 	"fmt"
 	"os"
 	"path/filepath"
+	"runtime/debug"
 	"sort"
 	"strconv"
 	"strings"
@@ -291,9 +291,9 @@ type asyncCase struct {
 	Direct    bool
 	Policy    string
 	Size      int
-	Occupancy int    // items buffered behind the in-flight one at the call
-	Worker    string // drained | parked | slow
-	DelayMS   int    // parked: gate opens this long after Stop was issued
+	Occupancy int      // items buffered behind the in-flight one at the call
+	Worker    string   // drained | parked | slow
+	DelayMS   int      // parked: gate opens this long after Stop was issued
 	Sinks     []string // extra sinks next to the recorder: file | rolling | console
 	Layout    bool
 	Shared    bool // Refresh mode: a second (sync) logger shares the appenders; Destroy stops the system
@@ -417,11 +417,11 @@ func runAsyncCase(c asyncCase, dir string) error {
 	} else {
 		m := map[string]string{
 			"enableCaller": "false", "bufferCap": "10KB",
-			"appender.rec.type":             "Rec",
-			"logger.c05h.type":              "AsyncLogger",
-			"logger.c05h.tags":              "_c05_main",
-			"logger.c05h.bufferSize":        strconv.Itoa(c.Size),
-			"logger.c05h.bufferFullPolicy":  c.Policy,
+			"appender.rec.type":              "Rec",
+			"logger.c05h.type":               "AsyncLogger",
+			"logger.c05h.tags":               "_c05_main",
+			"logger.c05h.bufferSize":         strconv.Itoa(c.Size),
+			"logger.c05h.bufferFullPolicy":   c.Policy,
 			"logger.c05h.appenderRef[0].ref": "rec",
 		}
 		if c.Layout {
@@ -932,4 +932,66 @@ func TestRegress_C05(t *testing.T) {
 		}
 	}
 	log.Destroy()
+}
+
+// TestC05_SlowDrain: "in bounded time" is bounded by what was accepted, not by a grace period.
+// A backlog whose delivery takes longer than any plausible shutdown grace (about 4 s here: the
+// appender needs 400-500 ms per item) is still handed over completely before Stop / Destroy
+// returns - through a directly built logger and through Refresh + Destroy.
+func TestC05_SlowDrain(t *testing.T) {
+	vk.Rule(rule)
+	for _, viaRefresh := range []bool{false, true} {
+		log.Destroy()
+		vk.ResetRecs()
+		vk.SetBehavior("slow", &vk.Behavior{Delay: func(n int) time.Duration { return time.Duration(400+n%3*50) * time.Millisecond }})
+		const N = 9
+		var stop func()
+		tag := log.RegisterTag("_c05_slow")
+		if viaRefresh {
+			if err := log.Refresh(map[string]string{"enableCaller": "false", "appender.slow.type": "Rec", "logger.c05h.type": "AsyncLogger", "logger.c05h.tags": "_c05_slow",
+				"logger.c05h.bufferSize": "100", "logger.c05h.bufferFullPolicy": "Discard", "logger.c05h.appenderRef.ref": "slow"}); err != nil {
+				t.Fatalf("VERIF-INCONCLUSIVE C05: %v", err)
+			}
+			for i := 0; i < N; i++ {
+				log.Info(context.Background(), tag, log.Int("id", i))
+			}
+			stop = log.Destroy
+		} else {
+			a := &vk.RecAppender{AppenderBase: log.AppenderBase{Name: "slow"}}
+			_ = a.Start()
+			all := log.LevelRange{MinLevel: log.NoneLevel, MaxLevel: log.MaxLevel}
+			l := &log.AsyncLogger{LoggerBase: log.LoggerBase{Name: "s", Level: all}, AppenderRefs: log.AppenderRefs{AppenderRefs: []*log.AppenderRef{{Appender: a, Level: all}}}, BufferSize: 100, BufferFullPolicy: log.BufferFullPolicyBlock}
+			if err := l.Start(); err != nil {
+				t.Fatalf("VERIF-INCONCLUSIVE C05: %v", err)
+			}
+			for i := 0; i < N; i++ {
+				e := log.GetEvent()
+				e.Level, e.Time, e.Tag, e.Fields = log.InfoLevel, time.Now(), "_c05_slow", []log.Field{log.Int("id", i)}
+				l.Append(e)
+			}
+			stop = l.Stop
+		}
+		t0 := time.Now()
+		done, p := vk.Within(60*time.Second, stop)
+		took := time.Since(t0)
+		got := 0
+		if r := vk.Rec("slow"); r != nil {
+			got = r.Len()
+		}
+		vk.Eval()
+		vk.Class(fmt.Sprintf("slow-drain:refresh=%v", viaRefresh))
+		vk.NonTrivial(fmt.Sprintf("slow-drain/%v", viaRefresh))
+		vk.Sample(map[string]any{"scenario": "backlog that needs about 4 s", "via_refresh": viaRefresh, "stop_took_ms": took.Milliseconds(), "delivered_at_return": got})
+		vk.SetBehavior("slow", nil)
+		if p != nil {
+			t.Fatalf("VERIF-VIOLATION C05: Stop/Destroy panicked: %v", p)
+		}
+		if !done {
+			vk.HardFail("c05-slowdrain", map[string]any{"via_refresh": viaRefresh}, "C05: Stop/Destroy did not return within 60 s although the appender needs about 4 s for the backlog")
+		}
+		if got != N {
+			t.Fatalf("VERIF-VIOLATION C05: %d events were accepted by an asynchronous logger whose appender takes 400-500 ms per event; when Stop/Destroy returned after %v the appender had received %d of them (refresh-built=%v)", N, took.Round(time.Millisecond), got, viaRefresh)
+		}
+		log.Destroy()
+	}
 }
